@@ -336,6 +336,10 @@ def check_apply(rng):
     from chmpy.crystal.unit_cell import UnitCell
     S = so.SymmetryOperation
     rot, digs = random_op(rng)
+    if rng.random() < 0.15:
+        rot = [1, 0, 0, 0, 1, 0, 0, 0, 1]          # pure translations are operations too, x,y,z plus whole cells among them
+        if rng.random() < 0.5:
+            digs = [0, 0, 0]
     R = np.array(rot, dtype=float).reshape(3, 3)
     # operations are also built from integer arrays (a rotation part IS an integer matrix)
     how = rng.choice(["float", "float", "int"])
@@ -364,8 +368,20 @@ def check_apply(rng):
     Rc = np.dot(d.T, np.dot(s.rotation, i.T)).T   # as Crystal.cartesian_symmetry_operations builds it
     tc = uc.to_cartesian(s.translation)
     cart = uc.to_cartesian(pts)
-    if not np.allclose(cart @ Rc + tc, uc.to_cartesian(a3), atol=1e-9):
+    if not np.allclose(cart @ Rc + tc, uc.to_cartesian(a3), rtol=0, atol=1e-9):
         return f"Cartesian form disagrees with fractional application for op {ref_str(rot, digs)}", (rot, digs)
+    # every form of the SAME stored operation gives the same points: apply on 3-vectors, the 4x4 matrix on homogeneous vectors, the
+    # Cartesian form built from rotation and translation — also for the lattice-shifted twin
+    hom = np.hstack([pts, np.ones((len(pts), 1))])
+    for name, op, x3 in (("operation", s, a3), ("its lattice-shifted twin", s2, b3)):
+        m4 = (np.asarray(op.seitz_matrix) @ hom.T).T
+        if not np.allclose(m4[:, :3], x3, rtol=0, atol=1e-9) or not np.allclose(m4[:, 3], 1.0, rtol=0, atol=1e-12):
+            return (f"{name} {ref_str(rot, digs)} (stored translation {np.asarray(op.translation).tolist()}): the 4x4 matrix on homogeneous vectors and "
+                    f"apply() on 3-vectors differ by {np.abs(m4[:, :3] - x3).max():.3g}"), (rot, digs)
+        Rc2 = np.dot(d.T, np.dot(op.rotation, i.T)).T
+        if not np.allclose(cart @ Rc2 + uc.to_cartesian(op.translation), uc.to_cartesian(x3), rtol=0, atol=1e-8):
+            return (f"{name} {ref_str(rot, digs)} (stored translation {np.asarray(op.translation).tolist()}): Cartesian form and apply() differ by "
+                    f"{np.abs(cart @ Rc2 + uc.to_cartesian(op.translation) - uc.to_cartesian(x3)).max():.3g} A"), (rot, digs)
     return None, None
 
 
@@ -381,11 +397,17 @@ def check_crystal_cartesian(rng):
              "tetragonal": lambda: UnitCell.tetragonal(5, 7), "trigonal": lambda: UnitCell.hexagonal(5, 7), "hexagonal": lambda: UnitCell.hexagonal(5, 7),
              "rhombohedral": lambda: UnitCell.hexagonal(5, 7), "cubic": lambda: UnitCell.cubic(6)}
     uc = cells.get(sg.crystal_system, cells["triclinic"])()
+    kind = sg.crystal_system
+    if rng.random() < 0.5:
+        # the Cartesian form of an operation is defined for ANY cell it is written in (the conversion is a change of basis), also one
+        # the operation is not a metric symmetry of: rectangular cells with three different edges, oblique cells
+        kind = rng.choice(["orthorhombic-5-7-11", "orthorhombic-5-7-11", "triclinic", "monoclinic"])
+        uc = {"orthorhombic-5-7-11": lambda: UnitCell.orthorhombic(5, 7, 11), "triclinic": cells["triclinic"], "monoclinic": cells["monoclinic"]}[kind]()
     c = Crystal(uc, sg, AsymmetricUnit([Element[6]], np.array([[0.1, 0.2, 0.3]])))
     pts = np.array([[rng.uniform(-1, 1) for _ in range(3)] for _ in range(3)])
     for (Rc, tc), s in zip(c.cartesian_symmetry_operations(), c.symmetry_operations):
-        if not np.allclose(uc.to_cartesian(pts) @ Rc + tc, uc.to_cartesian(s.apply(pts)), atol=1e-9):
-            return f"Crystal.cartesian_symmetry_operations disagrees with fractional application (space group {n}, op {s})"
+        if not np.allclose(uc.to_cartesian(pts) @ Rc + tc, uc.to_cartesian(s.apply(pts)), rtol=0, atol=1e-9):
+            return f"Crystal.cartesian_symmetry_operations disagrees with fractional application (space group {n} written in a {kind} cell, op {s})"
     return None
 
 
@@ -453,7 +475,7 @@ def search(ctx, budget):
         r, w = check_apply(rng)
         if r:
             ctx.fail("C11:apply", r, {"kind": "apply", "op": w})
-    for _ in range(10 if budget == "quick" else 60):
+    for _ in range(40 if budget == "quick" else 300):
         try:
             r = check_crystal_cartesian(rng)
         except Exception as e:  # noqa
